@@ -230,6 +230,20 @@ def dispatch (op : String) (args : List String) : Option String :=
                        cmap := parseMapLines (← decBytes cmap), rmap := parseMapLines (← decBytes rmap) }
       let errs := oracleAll x
       pure (if errs.isEmpty then "ok" else "FAIL " ++ (" || ".intercalate (errs.take 6)).replace "\n" " ")
+  | "oracle-e2e", [opts, stream, filtered, cmap, rmap] => do
+      let some o := parseFOpts opts | pure "ok"
+      let x : OIn := { o := o, src := importBytes (← decBytes stream), dst := importBytes (← decBytes filtered),
+                       cmap := parseMapLines (← decBytes cmap), rmap := parseMapLines (← decBytes rmap), byOid := true }
+      if x.src.failed.isSome then pure ("SRC-IMPORT-FAILED " ++ x.src.failed.getD "") else
+      let errs := oracleAll x
+      pure (if errs.isEmpty then "ok" else "FAIL " ++ (" || ".intercalate (errs.take 6)).replace "\n" " ")
+  | "guards", [opts, stream] => do
+      let some o := parseFOpts opts | pure "bad-options"
+      let src := importBytes (← decBytes stream)
+      let x : OIn := { o := o, src := src, dst := src, cmap := [], rmap := [] }
+      pure (if src.failed.isSome then "src-failed" else if !renameOk o src then "rename-not-ok"
+            else if refRenameCollides x then "ref-collision" else "ok")
+  | "compat", [n, r] => do pure (encBool (compat (← decBytes n) (← decBytes r)))
   | "import", [stream] => do
       let s := importBytes (← decBytes stream)
       pure (match s.failed with | some w => "failed: " ++ w | none => "ok commits=" ++ toString s.nCommits ++ " refs=" ++ toString (s.refs.filter (·.2.isSome)).length)
